@@ -9,6 +9,7 @@ import Q1t.Proofs.SimHypsComplex
 import Q1t.Proofs.SimStabCapstone
 import Q1t.Proofs.TableauContractQ8
 import Q1t.Proofs.Q8Field
+import Q1t.Proofs.DetShapeAll
 /-!
 # C02 — every shot is a possible run and holds the exact conditional state
 
@@ -405,6 +406,25 @@ theorem stab_shot_refinement_generated (n N : Nat)
   obtain ⟨f1, f2, f3⟩ := reach_sound n Q1t.Gen.phaseTable Q1t.Gen.conjTable Q1t.Gen.conjNoArityCheck Q8.lawful
     lawfulSimQ8 Q1t.Proofs.Tableau.phaseTable_correct Q1t.Proofs.ConjQ8.prims_exact_Q8 tableFacts_generated hD t φ e
   exact ⟨outs, t, w, φ, a, b, c, d, f1, f2, f3⟩
+
+open Q1t.Proofs.TabG Q1t.Sim.Demo in
+/-- **stab_shot_refinement_generated, no hypothesis left**: `DetShapeHolds` is proved by C03
+(`Q1t.Props.C03.det_shape_holds`, `Proofs/DetShapeAll.lean`). -/
+theorem stab_shot_refinement_generated_unconditional (n N : Nat)
+    {half : Q8} {sb : Nat → Q8 → Nat → Prop} {sc : List Q8 → Nat → Prop} (ops : List (COp Empty))
+    (hv : OpsValid (validT (A := Empty) n Q1t.Gen.conjTable) ops) (hok : ∀ op ∈ ops, StabOpOK n op)
+    {ds ds' : List Draw} {s' : StabState} {c' : List Nat}
+    (h : Runs sb sc (execOps (stabBackend half Q1t.Gen.phaseTable
+        (conjOfT (A := Empty) Q1t.Gen.conjTable Q1t.Gen.conjNoArityCheck)) (StabState.new n N) (List.replicate N 0) ops)
+      ds (.ok (s', c')) ds') :
+    (s'.counts.sum = N ∧ c'.length = N ∧ (shotTabs s').length = N) ∧
+    ∃ regs, RunsTrace (stabBackend half Q1t.Gen.phaseTable
+        (conjOfT (A := Empty) Q1t.Gen.conjTable Q1t.Gen.conjNoArityCheck)) sb sc (StabState.new n N)
+        (List.replicate N 0) ops ds regs s' c' ds' ∧
+      ∀ i, i < N → ∃ outs t w φ, ShotRecord regs i outs ∧ (shotTabs s')[i]? = some t ∧ c'[i]? = some w ∧
+        (φ, w) ∈ replay n nonzeroQ8 ops outs [(ket0 n, 0)] ∧ StabG Empty t φ ∧ t.n = n ∧
+        ∃ u : Q8, normSqSum φ * u = 1 :=
+  stab_shot_refinement_generated n N (Q1t.Proofs.DetPlan.detShapeHolds_generated n) ops hv hok h
 
 /-! ## non-vacuity -/
 
